@@ -11,6 +11,8 @@ use verif_harness::{driver::Driver, guarded, report::Report, rng::Rng, Args};
 enum Op {
     N(u32, u32, u32, u32),
     E,
+    /// `Range::default()` (what the readers return for a sheet without cells): the same empty range as `E` for the model
+    D,
     F(Vec<(u32, u32, usize)>),
     S(u32, u32, usize),
     R(u32, u32, u32, u32),
@@ -23,6 +25,7 @@ impl Op {
         match self {
             Op::N(a, b, c, d) => format!("N,{a},{b},{c},{d}"),
             Op::E => "E".into(),
+            Op::D => "D".into(),
             Op::F(cells) => {
                 let mut s = String::from("F");
                 for (r, c, v) in cells {
@@ -41,6 +44,7 @@ impl Op {
         match p[0] {
             "N" => Op::N(n(1) as u32, n(2) as u32, n(3) as u32, n(4) as u32),
             "E" => Op::E,
+            "D" => Op::D,
             "S" => Op::S(n(1) as u32, n(2) as u32, n(3) as usize),
             "R" => Op::R(n(1) as u32, n(2) as u32, n(3) as u32, n(4) as u32),
             "X" => Op::X(n(1) as u32, n(2) as u32, n(3) as usize),
@@ -183,7 +187,7 @@ impl Oracle {
     /// None = undocumented (resync from the implementation)
     fn apply_quiet(&mut self, op: &Op) -> Option<bool> {
         match op {
-            Op::E => {
+            Op::E | Op::D => {
                 *self = Oracle::default();
                 Some(false)
             }
@@ -269,6 +273,7 @@ fn apply_impl(r: &mut Range<usize>, op: &Op) -> Result<(), String> {
     let mut next = r.clone();
     let res = guarded(|| match op {
         Op::E => next = Range::empty(),
+        Op::D => next = Range::default(),
         Op::N(a, b, c, d) => next = Range::new((*a, *b), (*c, *d)),
         Op::S(a, b, v) => next.set_value((*a, *b), *v),
         Op::R(a, b, c, d) => next = next.range((*a, *b), (*c, *d)),
@@ -285,6 +290,7 @@ fn apply_impl(r: &mut Range<usize>, op: &Op) -> Result<(), String> {
 fn apply_inplace(r: &mut Range<usize>, op: &Op) -> Result<(), String> {
     guarded(|| match op {
         Op::E => *r = Range::empty(),
+        Op::D => *r = Range::default(),
         Op::N(a, b, c, d) => *r = Range::new((*a, *b), (*c, *d)),
         Op::S(a, b, v) => r.set_value((*a, *b), *v),
         Op::R(a, b, c, d) => *r = r.range((*a, *b), (*c, *d)),
@@ -303,6 +309,7 @@ fn sig_of(op: &Op, before: &Range<usize>) -> String {
         Op::N(..) => "N".into(),
         Op::X(..) => "X".into(),
         Op::E => "E".into(),
+        Op::D => "D".into(),
         Op::F(cells) => {
             let sorted = cells.windows(2).all(|w| w[0].0 <= w[1].0);
             (if sorted { "F" } else { "F:unsorted" }).into()
@@ -334,9 +341,18 @@ fn gen_history(rng: &mut Rng) -> Vec<Op> {
             Op::N(cl(a), cl(b), cl(c), cl(d))
         } else if k < 17 {
             cur = None;
-            Op::E
+            // the two ways to an empty range: `Range::empty()` and `Range::default()` (what the readers return for
+            // a sheet without cells, a chart sheet, a table without data rows)
+            if rng.chance(1, 2) {
+                Op::E
+            } else {
+                Op::D
+            }
         } else if k < 30 {
-            let m = rng.below(9);
+            // long lists (more than 20 cells over 63 positions: many positions given several times, "last one
+            // wins" must hold whatever the order) besides the short ones
+            let long = rng.chance(1, 5);
+            let m = if long { 21 + rng.below(60) } else { rng.below(9) };
             let mut cells: Vec<(u32, u32, usize)> = if rng.chance(1, 3) {
                 // dense-ish: the row-major enumeration of a small box, then some positions replaced by a repeat
                 // of their predecessor (a rewritten cell) and some dropped: count == area with duplicates,
@@ -366,7 +382,7 @@ fn gen_history(rng: &mut Rng) -> Vec<Op> {
             } else {
                 (0..m).map(|_| (cl(r0 + rng.below(7)), cl(c0 + rng.below(9)), rng.below(5) as usize)).collect()
             };
-            if !rng.chance(1, 10) {
+            if !rng.chance(1, if long { 2 } else { 10 }) {
                 cells.sort_by_key(|c| c.0);
             }
             cur = if cells.is_empty() {
@@ -428,7 +444,7 @@ struct Outcome {
 fn area_after(r: &Range<usize>, op: &Op) -> u64 {
     let span = |a: u32, b: u32| (b as u64).saturating_sub(a as u64) + 1;
     match op {
-        Op::E | Op::X(..) => 0,
+        Op::E | Op::D | Op::X(..) => 0,
         Op::N(a, b, c, d) | Op::R(a, b, c, d) => span(*a, *c).saturating_mul(span(*b, *d)),
         Op::S(row, col, _) => {
             let s = r.start().unwrap_or((0, 0));
@@ -477,7 +493,8 @@ fn run_history(ops: &[Op], drv: &mut Driver) -> Outcome {
     if ops.is_empty() {
         return out;
     }
-    let wire: Vec<String> = ops.iter().map(|o| o.wire()).collect();
+    // `Range::default()` and `Range::empty()` are the same abstract state: the model is sent `E` for both
+    let wire: Vec<String> = ops.iter().map(|o| if matches!(o, Op::D) { "E".to_string() } else { o.wire() }).collect();
     let reply = drv.ask(&format!("hist {}", wire.join(";")));
     let model: Vec<&str> = reply.split(';').collect();
     if model.len() != ops.len() {
@@ -612,7 +629,7 @@ fn run_iter(ops: &[Op], pat: &str, drv: &mut Driver) -> Vec<(String, String, Str
         }
         let _ = apply_impl(&mut r, op);
     }
-    let wire: Vec<String> = ops.iter().map(|o| o.wire()).collect();
+    let wire: Vec<String> = ops.iter().map(|o| if matches!(o, Op::D) { "E".to_string() } else { o.wire() }).collect();
     let model = drv.ask(&format!("iter {pat} {}", wire.join(";")));
     let imp = guarded(|| iter_impl(&r, pat)).unwrap_or_else(|e| format!("panic:{e}"));
     let spec = iter_spec(&r, pat);
@@ -699,6 +716,20 @@ impl LOp {
                 for _ in 0..*dups {
                     let i = 1 + rng.below(v.len() as u64 - 1) as usize;
                     v[i] = (v[i - 1].0, v[i - 1].1, 1 + rng.below(1000) as usize);
+                }
+                // one list in three is not in reading order: rotated (rows out of order) or with the columns of
+                // every row reversed; which of two cells at one position comes last is part of the input
+                match seed % 3 {
+                    1 if v.len() > 2 => {
+                        let k = 1 + (seed / 3) as usize % (v.len() - 1);
+                        v.rotate_left(k);
+                    }
+                    2 => {
+                        for row in v.chunks_mut((*w).max(1) as usize) {
+                            row.reverse();
+                        }
+                    }
+                    _ => {}
                 }
                 vec![Op::F(v)]
             }
@@ -817,6 +848,38 @@ fn gen_large(rng: &mut Rng, cap: u64) -> Vec<LOp> {
             ops.push(LOp::Range(a as u32, b as u32, c as u32, d as u32));
             (sr, sc, er, ec) = (a, b, c, d);
         }
+    }
+    ops
+}
+
+/// `set_value` growth whose number of new cells is a multiple of 4096 (and its neighbours), in both arms: rows
+/// appended below a rectangle whose width is a power of two, with or without a growth of the width at the same time
+fn gen_block(rng: &mut Rng, cap: u64) -> Vec<LOp> {
+    let w = *rng.pick(&[1u64, 2, 16, 64, 100, 128, 256, 1024, 4096, 8192]);
+    let h = rng.range(1, 6);
+    let r0 = *rng.pick(&[0u64, 0, 1, 5, 1000]);
+    let c0 = *rng.pick(&[0u64, 0, 1, 3, 700]);
+    let mut ops = vec![LOp::New(r0 as u32, c0 as u32, h as u32, w as u32), LOp::Fill(rng.range(1, 60) as u32, rng.next())];
+    let (sr, sc, mut er, mut ec) = (r0, c0, r0 + h - 1, c0 + w - 1);
+    for _ in 0..rng.range(1, 3) {
+        let ww = ec - sc + 1;
+        let nw = if rng.chance(1, 2) { ww } else { (*rng.pick(&[64u64, 128, 256, 1024, 4096, 8192])).max(ww) };
+        let k = rng.range(1, 3);
+        let exact = (4096 * k) % nw == 0;
+        let mut dr = if exact { 4096 * k / nw } else { rng.range(1, 70) };
+        if exact && rng.chance(1, 4) {
+            dr = (dr + rng.below(3)).saturating_sub(1).max(1); // one row less / more than the multiple
+        }
+        let (nr, nc) = (er + dr, sc + nw - 1);
+        if (nr - sr + 1) * (nc - sc + 1) > cap {
+            break;
+        }
+        ops.push(LOp::Set(nr as u32, nc as u32, 1 + rng.below(1000) as usize));
+        // a write into the last and the first appended row, a window over the appended rows
+        ops.push(LOp::Set(nr as u32, sc as u32, 1 + rng.below(1000) as usize));
+        ops.push(LOp::Set((er + 1) as u32, nc as u32, 1 + rng.below(1000) as usize));
+        er = nr;
+        ec = nc;
     }
     ops
 }
@@ -956,6 +1019,9 @@ fn corpus() -> Vec<&'static str> {
         // D02: range over an empty source covering (0,0)
         "E;R,0,0,1,1",
         "F;R,0,0,2,2",
+        // the same over `Range::default()` (seeded C05-m19)
+        "D;R,0,0,1,1",
+        "D;R,0,0,0,0;S,0,0,1",
         // grow right, grow both, then window
         "N,1,1,2,2;S,2,4,1;S,5,6,2;R,0,0,9,9;R,2,2,3,3",
         // near u32::MAX
@@ -1020,7 +1086,7 @@ fn main() {
         let cap: u64 = if args.thorough() { 1 << 21 } else { 1 << 20 };
         let nl = if args.n.is_some() { (n / 150).max(4) } else { args.count(40, 1500) };
         for _ in 0..nl {
-            larges.push(gen_large(&mut rng, cap));
+            larges.push(if rng.chance(1, 3) { gen_block(&mut rng, cap) } else { gen_large(&mut rng, cap) });
         }
     }
     let mut shrunk = 0;
